@@ -341,3 +341,13 @@ PROPS["C12"] = {
             "deepcopy-gen for 4 tags. Distinct = distinct line set.",
     "assumptions": ["tags are build-tag names (letters, digits, '_', '.')", "Go >= 1.17 semantics: a //go:build line takes precedence over // +build lines"],
 }
+
+PROPS["C16"] = {
+    "variants": ["v1"],
+    "lean": [],
+    "level": "proof",
+    "level_text": "(under construction)",
+    "level_note": "",
+    "rule": "",
+    "assumptions": [],
+}
